@@ -56,6 +56,14 @@ def run(chk: Check):
 
     chk.tv("Trace_MHStep.tla", traces, tag="mh_step", nontrivial=nontrivial,
            keyfn=lambda r: f"mh_step:{r.conjunct}")
+    # the same rule at the level of the kernels' transition infos: RW / MH / IWLS kernels whose block's density depends
+    # on a quantity another kernel of the sequence moves in between (the log-densities are those of the *current* state)
+    from harness import parallel, proposals_driver as P
+    js = [j for j in P.jobs(True) if j["family"] in ("coupled", "gamma_coupled")]
+    ktr = [t for res in parallel.run_jobs("harness.proposals_driver", "run", js) for t in res]
+    chk.tv("Trace_Proposals.tla", ktr, tag="kernel_infos", timeout=900,
+           keyfn=lambda r: f"kernel:{r.trace['hdr']['kernel']}:{r.conjunct}",
+           describe=lambda r: f"family {r.trace['hdr']['family']} step {r.trace['hdr']['step']}")
     chk.assumptions += ["the uniform draw inside mh_step lies in [0,1) and is a function of the key only "
                         "(inferred per key as a hidden variable, never read)"]
 
